@@ -397,7 +397,7 @@ fn rule_c13(ctx: &Ctx, out: &mut Vec<Violation>) {
                     if !exp.certain.contains_key(g.as_str()) && !exp.uncertain.contains(g.as_str()) {
                         // (a subscription whose create overlapped a delete of the same name: the known attach-after-detach defect)
                         let racing = matches!(kind, ListKind::TopicSubs)
-                            && m.sub_creates.get(g.as_str()).map(|cs| cs.iter().any(|cc| m.sub_deletes.get(g.as_str()).map(|ds| ds.iter().any(|dc| m.calls[cc].inv_seq < m.calls[dc].ret_seq_or_max() && m.calls[dc].inv_seq < m.calls[cc].ret_seq_or_max())).unwrap_or(false))).unwrap_or(false);
+                            && m.sub_creates.get(g.as_str()).map(|cs| cs.iter().any(|cc| m.sub_deletes.get(g.as_str()).map(|ds| ds.iter().any(|dc| m.calls[cc].inv_seq < m.calls[dc].effect_end_seq() && m.calls[dc].inv_seq < m.calls[cc].effect_end_seq())).unwrap_or(false))).unwrap_or(false);
                         out.push(v("C13.walk", format!("unexpected:{kind_name}{}", if racing { ":create_overlaps_delete" } else { "" }), format!("{:?} walk of {} (page_size {}): {} listed but it does not exist there", kind, parent, page_size, g)));
                     }
                 }
@@ -587,7 +587,7 @@ fn rule_c11(ctx: &Ctx, out: &mut Vec<Violation>) {
                     let gone = m.sub_deletes.get(*g).map(|d| d.iter().any(|dc| m.calls[dc].returned_ok())).unwrap_or(false);
                     // Did a create of that name overlap a delete of it (the create's attach can
                     // then land after the delete's detach)?
-                    let racing = m.sub_creates.get(*g).map(|cs| cs.iter().any(|cc| m.sub_deletes.get(*g).map(|ds| ds.iter().any(|dc| m.calls[cc].inv_seq < m.calls[dc].ret_seq_or_max() && m.calls[dc].inv_seq < m.calls[cc].ret_seq_or_max())).unwrap_or(false))).unwrap_or(false);
+                    let racing = m.sub_creates.get(*g).map(|cs| cs.iter().any(|cc| m.sub_deletes.get(*g).map(|ds| ds.iter().any(|dc| m.calls[cc].inv_seq < m.calls[dc].effect_end_seq() && m.calls[dc].inv_seq < m.calls[cc].effect_end_seq())).unwrap_or(false))).unwrap_or(false);
                     out.push(v("C11.list", if gone && racing { "deleted_still_listed:create_overlaps_delete" } else if gone { "deleted_still_listed:sequential" } else { "unexpected" }, format!("ListTopicSubscriptions({}) at quiescence lists {} which is not a live subscription of this topic", parent, g)));
                 }
             }
@@ -664,7 +664,7 @@ fn rule_c16(ctx: &Ctx, out: &mut Vec<Violation>) {
     let cancel_plan = ctx.plan.has_tag("cancel");
     let rule_name = if cancel_plan { "C16.attached" } else { "C11.consistent" };
     let racing = |sub: &str| -> bool {
-        m.sub_creates.get(sub).map(|cs| cs.iter().any(|cc| m.sub_deletes.get(sub).map(|ds| ds.iter().any(|dc| m.calls[cc].inv_seq < m.calls[dc].ret_seq_or_max() && m.calls[dc].inv_seq < m.calls[cc].ret_seq_or_max())).unwrap_or(false))).unwrap_or(false)
+        m.sub_creates.get(sub).map(|cs| cs.iter().any(|cc| m.sub_deletes.get(sub).map(|ds| ds.iter().any(|dc| m.calls[cc].inv_seq < m.calls[dc].effect_end_seq() && m.calls[dc].inv_seq < m.calls[cc].effect_end_seq())).unwrap_or(false))).unwrap_or(false)
     };
     // At every audit, a subscription exists <=> it is in its (live) topic's list. This needs no
     // knowledge of what abandoned or racing requests did: whatever they did, the two views of
